@@ -282,6 +282,8 @@ func observe(w *world.World, cur wld) (obs, error) {
 	return o, nil
 }
 
+var keepNF bool // the normal form of every step is kept for the comparison with further runs (-fresh)
+
 func runHistory(base, id string, seed int64, steps []wld, rawSteps []json.RawMessage) ([]rec, error) {
 	// the API server returns lists in a random order
 	cli := &pipeline.ShuffleClient{Client: pipeline.NewClient(), Rnd: rand.New(rand.NewSource(seed))}
@@ -330,11 +332,15 @@ func runHistory(base, id string, seed int64, steps []wld, rawSteps []json.RawMes
 		if err != nil {
 			return nil, err
 		}
-		raw, err := cfgnf.Load(w.Opt.CfgDir(), w.Opt.Dir)
-		if err != nil {
-			return nil, err
+		r := rec{ID: id, Step: i, W: rawSteps[i], Obs: ob, Det: true, DetDiff: []string{}}
+		if keepNF {
+			raw, err := cfgnf.Load(w.Opt.CfgDir(), w.Opt.Dir)
+			if err != nil {
+				return nil, err
+			}
+			r.nf = raw.Canon()
 		}
-		recs = append(recs, rec{ID: id, Step: i, W: rawSteps[i], Obs: ob, Det: true, DetDiff: []string{}, nf: raw.Canon()})
+		recs = append(recs, r)
 	}
 	return recs, nil
 }
@@ -348,6 +354,7 @@ func main() {
 	fresh := flag.Int("fresh", 0, "further runs of every history with another list order")
 	flag.Parse()
 	world.Chdir()
+	keepNF = *fresh > 0
 	data, err := os.ReadFile(*in)
 	if err != nil {
 		fmt.Fprintln(os.Stderr, err)
@@ -376,6 +383,9 @@ func main() {
 				var again []rec
 				again, errs[i] = runHistory(*work, id, *seed*7919+int64(i)+int64(f)*104729, hs[i], rawhs[i])
 				for k := range again {
+					if f == *fresh {
+						defer func(r *rec) { r.nf = nil }(&res[i][k])
+					}
 					if d := cfgnf.Diff(res[i][k].nf, again[k].nf); len(d) > 0 && res[i][k].Det {
 						res[i][k].Det = false
 						if len(d) > 4 {
